@@ -11,7 +11,9 @@ import (
 	"time"
 
 	"github.com/TarsCloud/TarsGo/tars"
+	"github.com/TarsCloud/TarsGo/tars/protocol/res/endpointf"
 	"github.com/TarsCloud/TarsGo/tars/protocol/res/requestf"
+	"github.com/TarsCloud/TarsGo/tars/registry"
 	"github.com/TarsCloud/TarsGo/tars/util/tools"
 
 	"verifsim/refcodec"
@@ -42,10 +44,33 @@ type S struct {
 	calls     []*call
 	srv       *world.Server
 	timeoutMs int
-	prx       *tars.ServantProxy
-	final     tars.VerifProxyState
+	prxs      []*tars.ServantProxy
+	srvs      []*world.Server
+	final     []tars.VerifProxyState
+	registry  bool
+	dropAt    time.Duration // when the registry stopped listing dropped (registry mode)
+	dropped   string
+	refreshMs int
+	drop      func(host string)
 	finished  bool
 	plans     map[int32]string
+}
+
+// registrar is the registry of the registry mode.
+type registrar struct {
+	mu     sync.Mutex
+	active []endpointf.EndpointF
+}
+
+func (r *registrar) Registry(ctx context.Context, s *registry.ServantInstance) error   { return nil }
+func (r *registrar) Deregister(ctx context.Context, s *registry.ServantInstance) error { return nil }
+func (r *registrar) QueryServant(ctx context.Context, id string) ([]registry.Endpoint, []registry.Endpoint, error) {
+	r.mu.Lock()
+	defer r.mu.Unlock()
+	return append([]endpointf.EndpointF(nil), r.active...), nil, nil
+}
+func (r *registrar) QueryServantBySet(ctx context.Context, id, set string) ([]registry.Endpoint, []registry.Endpoint, error) {
+	return r.QueryServant(ctx, id)
 }
 
 func (s *S) Prepare(c *scen.Ctx) { world.PrepareProcess() }
@@ -63,22 +88,71 @@ func (s *S) Run(c *scen.Ctx) {
 	simnet.Cfg.Delay = simrt.Draw(2, "c08.delay") == 1
 	s.timeoutMs = []int{3000, 300, 1000}[simrt.Draw(3, "c08.timeout")]
 	s.plans = map[int32]string{}
+	s.registry = simrt.Draw(4, "c08.registry") == 3
+	var comm *tars.Communicator
+	obj := "App.Srv.Obj@tcp -h 10.0.0.9 -p 1000 -t 3000"
+	handler := func(sc *world.SrvConn, req *refcodec.Request, raw []byte) { s.onRequest(c, sc, req) }
+	addrs := []string{addr}
+	if s.registry {
+		// endpoints come from a registry that stops listing one of them while calls are in flight:
+		// the refresh closes that endpoint's adapter under the callers waiting on it
+		s.refreshMs = []int{200, 1000}[simrt.Draw(2, "c08.refresh")]
+		nn := 2 + simrt.Draw(2, "c08.nodes")
+		reg := &registrar{}
+		addrs = nil
+		for i := 0; i < nn; i++ {
+			reg.active = append(reg.active, endpointf.EndpointF{Host: fmt.Sprintf("10.0.1.%d", i+1), Port: 1000, Timeout: 3000, Istcp: 1, Weight: 100})
+			addrs = append(addrs, fmt.Sprintf("10.0.1.%d:1000", i+1))
+		}
+		comm = world.NewClient(world.ClientOpts{InvokeTimeoutMs: s.timeoutMs, RefreshMs: s.refreshMs}, tars.Registrar(reg))
+		obj = "App.Srv.Obj"
+		// the drop is placed where it creates in-flight state: right after a request whose
+		// reply the server holds back has arrived on the endpoint to be dropped (see onRequest)
+		s.drop = func(host string) {
+			reg.mu.Lock()
+			defer reg.mu.Unlock()
+			if len(reg.active) < 2 {
+				return
+			}
+			for k, e := range reg.active {
+				if e.Host == host {
+					reg.active = append(reg.active[:k:k], reg.active[k+1:]...)
+					s.dropped, s.dropAt = host, simrt.Elapsed()
+					c.Count("fault.registry_drops_endpoint_with_calls_in_flight", 1)
+					simrt.Event("registry stops listing %s", host)
+					return
+				}
+			}
+		}
+	} else {
+		comm = world.NewClient(world.ClientOpts{InvokeTimeoutMs: s.timeoutMs})
+	}
+	for _, a := range addrs {
+		srv, err := world.StartServer(a, handler)
+		if err != nil {
+			c.Inconclusive("listen: %v", err)
+			return
+		}
+		s.srvs = append(s.srvs, srv)
+	}
+	// several proxy objects for the same servant share the endpoint manager, its adapters and
+	// their pending-reply tables: ids must be unique across all of them
+	nprx := []int{1, 1, 2, 3}[simrt.Draw(4, "c08.proxies")]
+	for i := 0; i < nprx; i++ {
+		s.prxs = append(s.prxs, world.Proxy(comm, obj))
+	}
+	c.Describe("proxy_objects", nprx)
+	c.Describe("registry", s.registry)
 	switch simrt.Draw(5, "c08.msgid") {
 	case 1:
-		tars.VerifSetMsgID(math.MaxInt32 - int32(simrt.Draw(6, "c08.msgid.off")))
-		c.Count("probe.msgid_near_maxint32", 1)
+		if tars.VerifSetMsgID(math.MaxInt32-int32(simrt.Draw(6, "c08.msgid.off")), s.prxs...) {
+			c.Count("probe.msgid_near_maxint32", 1)
+		}
 	case 2:
-		tars.VerifSetMsgID(-1 - int32(simrt.Draw(4, "c08.msgid.off")))
-		c.Count("probe.msgid_near_zero", 1)
+		if tars.VerifSetMsgID(-1-int32(simrt.Draw(4, "c08.msgid.off")), s.prxs...) {
+			c.Count("probe.msgid_near_zero", 1)
+		}
 	}
-	comm := world.NewClient(world.ClientOpts{InvokeTimeoutMs: s.timeoutMs})
-	var err error
-	s.srv, err = world.StartServer(addr, func(sc *world.SrvConn, req *refcodec.Request, raw []byte) { s.onRequest(c, sc, req) })
-	if err != nil {
-		c.Inconclusive("listen: %v", err)
-		return
-	}
-	s.prx = world.Proxy(comm, "App.Srv.Obj@tcp -h 10.0.0.9 -p 1000 -t 3000")
 	ncallers := 1 + simrt.Draw(8, "c08.callers")
 	per := 1 + simrt.Draw(5, "c08.per")
 	c.Describe("callers", ncallers)
@@ -104,7 +178,7 @@ func (s *S) Run(c *scen.Ctx) {
 					ct = 1
 				}
 				cl.t0, cl.s0 = simrt.Elapsed(), simrt.Step()
-				err := s.prx.TarsInvoke(context.Background(), ct, "echo", cl.payload, nil, nil, &rsp)
+				err := s.prxs[ci%len(s.prxs)].TarsInvoke(context.Background(), ct, "echo", cl.payload, nil, nil, &rsp)
 				s.mu.Lock()
 				cl.t1, cl.s1 = simrt.Elapsed(), simrt.Step()
 				cl.done = true
@@ -124,7 +198,9 @@ func (s *S) Run(c *scen.Ctx) {
 	wg.Wait()
 	simrt.Sleep(time.Duration(s.timeoutMs)*time.Millisecond + 500*time.Millisecond)
 	s.mu.Lock()
-	s.final = tars.VerifState(s.prx)
+	for _, p := range s.prxs {
+		s.final = append(s.final, tars.VerifState(p))
+	}
 	s.finished = true
 	s.mu.Unlock()
 }
@@ -189,16 +265,22 @@ func (s *S) onRequest(c *scen.Ctx, sc *world.SrvConn, req *refcodec.Request) {
 	}
 	s.mu.Lock()
 	s.plans[req.RequestID] = name
+	if s.drop != nil && s.dropped == "" && (plan == 3 || plan >= 7) && simrt.Draw(2, "c08.dropnow") == 1 {
+		s.drop(strings.Split(sc.Srv.Addr, ":")[0])
+	}
 	s.mu.Unlock()
 }
 
 func (s *S) Check(c *scen.Ctx, res *simrt.Result) {
 	s.mu.Lock()
 	defer s.mu.Unlock()
-	if s.srv == nil {
+	if len(s.srvs) == 0 {
 		return
 	}
-	reqs := s.srv.Requests()
+	var reqs []world.ReqRec
+	for _, sv := range s.srvs {
+		reqs = append(reqs, sv.Requests()...)
+	}
 	byPayload := map[string][]world.ReqRec{}
 	for _, r := range reqs {
 		byPayload[string(r.Req.Buffer)] = append(byPayload[string(r.Req.Buffer)], r)
@@ -262,7 +344,9 @@ func (s *S) Check(c *scen.Ctx, res *simrt.Result) {
 			}
 		}
 	}
-	if s.finished && (s.final.Pending != 0 || s.final.QueueLen != 0) {
-		c.Fail("C08", "leftover", "doInvoke", "after all calls returned and the world was idle: pending-reply table has %d entries, queueLen=%d", s.final.Pending, s.final.QueueLen)
+	for i, f := range s.final {
+		if s.finished && (f.Pending != 0 || f.QueueLen != 0) {
+			c.Fail("C08", "leftover", "doInvoke", "after all calls returned and the world was idle: pending-reply table has %d entries, queueLen=%d (proxy object %d)", f.Pending, f.QueueLen, i)
+		}
 	}
 }
